@@ -130,8 +130,7 @@ def run_tlc(module, cfg_text, *, workers=16, env=None, extra=(), timeout=3600, c
         with open(cfgp, "w") as fh:
             fh.write(cfg_text)
         java = ["java", "-XX:+UseParallelGC"]
-        if heap:
-            java.append(f"-Xmx{heap}")
+        java.append(f"-Xmx{heap or '4g'}")      # (the JVM's own default would be a quarter of the machine per process)
         if dfs:
             java.append("-Dtlc2.tool.queue.IStateQueue=StateDeque")
         cmd = java + ["-cp", TLA_CP, "tlc2.TLC", "-workers", str(workers), "-metadir", os.path.join(wd, "meta"),
